@@ -29,23 +29,39 @@ Proof.
   f_equal. apply map_ext. intros t0. f_equal. lia.
 Qed.
 
+Lemma start_year_range_m r : spec_wf r = true -> 1 <= r_y r <= 9999.
+Proof.
+  intros HW. unfold spec_wf in HW.
+  repeat match type of HW with _ && _ = true =>
+    let H := fresh "W" in apply andb_true_iff in HW; destruct HW as [HW H] end.
+  match goal with H : valid_ymd _ _ _ = true |- _ => unfold valid_ymd in H end. lia.
+Qed.
+
 Section MonthlyFull.
 Variables (r : raw) (rl : rule).
 Hypothesis HN : normalize r = Ok rl.
 Hypothesis HW : spec_wf r = true.
 Hypothesis Hfr : r_freq r = MONTHLY.
-Hypothesis RB_ok : forall y m, 1 <= y <= 9999 -> 1 <= m <= 12 -> exists ii, rebuild rl ii_init y m = Ok ii.
-Hypothesis RB_eq : forall y m ii y' m', 1 <= y <= 9999 -> 1 <= m <= 12 -> rebuild rl ii_init y m = Ok ii ->
-  1 <= y' <= 9999 -> 1 <= m' <= 12 -> (y' <> y \/ m' <> m) ->
+(* the years ylo..yhi in which the three facts hold (1..9999 without BYEASTER, C19's range with it) *)
+Variables (ylo yhi : Z).
+Hypothesis RB_ok : forall y m, ylo <= y <= yhi -> 1 <= m <= 12 -> exists ii, rebuild rl ii_init y m = Ok ii.
+Hypothesis RB_eq : forall y m ii y' m', ylo <= y <= yhi -> 1 <= m <= 12 -> rebuild rl ii_init y m = Ok ii ->
+  ylo <= y' <= yhi -> 1 <= m' <= 12 -> (y' <> y \/ m' <> m) ->
   rebuild rl ii y' m' = rebuild rl ii_init y' m'.
-Hypothesis DF : forall y m ii i, 1 <= y <= 9999 -> 1 <= m <= 12 -> rebuild rl ii_init y m = Ok ii ->
+Hypothesis DF : forall y m ii i, ylo <= y <= yhi -> 1 <= m <= 12 -> rebuild rl ii_init y m = Ok ii ->
   dbm y m <= i < dbm y (m + 1) -> day_rejected rl ii i = Ok (negb (day_ok r (jan1 y + i))).
+
+(* the cursor invariant with the year range; passes after which the next month's year is still inside it (or
+   beyond 9999, where the loop stops) *)
+Definition inv_m (k : Z) (cnt : option Z) (s : state) : Prop :=
+  at_pass_m r rl k cnt s /\ ylo <= c_year s <= yhi.
+Definition okp_m (k : Z) : Prop := midx r (k + 1) / 12 <= yhi \/ 9999 < midx r (k + 1) / 12.
 
 Let Nfr : freq rl = MONTHLY.
 Proof. rewrite (normalize_freq r rl HN). exact Hfr. Qed.
 
 (* the days of a MONTHLY pass that survive the filter *)
-Lemma monthly_days : forall k cnt s, at_pass_m r rl k cnt s ->
+Lemma monthly_days : forall k cnt s, at_pass_m r rl k cnt s -> ylo <= c_year s <= yhi ->
   let y := c_year s in let m := c_month s in
   let st := dbm y m in let en := dbm y (m + 1) in
   exists ds ds' f,
@@ -53,8 +69,8 @@ Lemma monthly_days : forall k cnt s, at_pass_m r rl k cnt s ->
     filter_loop rl (c_ii s) (py_slice ds st en) ds false = Ok (ds', f) /\
     somes (py_slice ds' st en) = filter (fun i => day_ok r (jan1 y + i)) (zrange st en).
 Proof.
-  intros k cnt s (Am & Ay & Ai & Ar & At & Ac) y m st en.
-  fold y m in Am, Ay, Ai, Ar.
+  intros k cnt s (Am & Ay & Ai & Ar & At & Ac) Hr y m st en.
+  fold y m in Am, Ay, Ai, Ar. fold y in Hr.
   pose proof (rebuild_ii_for rl y m (c_ii s) Ay Ar) as F.
   pose proof (dbm_mono y 1 m ltac:(lia) ltac:(lia) ltac:(lia)) as M1.
   pose proof (dbm_mono y (m + 1) 13 ltac:(lia) ltac:(lia) ltac:(lia)) as M2.
@@ -66,7 +82,7 @@ Proof.
     cbv iota. exact E1. }
   set (rej := fun i => negb (day_ok r (jan1 y + i))).
   assert (HRj : forall i, st <= i < en -> day_rejected rl (c_ii s) i = Ok (rej i)).
-  { intros i Hi. apply (DF y m (c_ii s) i Ay Am Ar). exact Hi. }
+  { intros i Hi. apply (DF y m (c_ii s) i Hr Am Ar). exact Hi. }
   set (pre := repeat (@None Z) (Z.to_nat st)). set (suf := repeat (@None Z) (Z.to_nat (year_len y - en))).
   assert (Lp : Z.of_nat (length pre) = st) by (unfold pre; rewrite repeat_length; lia).
   assert (SL : py_slice ds st en = map Some (zrange st en)).
@@ -117,11 +133,11 @@ Proof.
   apply flat_map_filter.
 Qed.
 
-Lemma monthly_advance2 : forall k cnt s filtered c1 out1, at_pass_m r rl k cnt s ->
-  (exists s', advance rl s filtered c1 out1 = Ok (AdvGo s') /\ at_pass_m r rl (k + 1) c1 s' /\ c_out s' = out1) \/
+Lemma monthly_advance2 : forall k cnt s filtered c1 out1, inv_m k cnt s -> okp_m k ->
+  (exists s', advance rl s filtered c1 out1 = Ok (AdvGo s') /\ inv_m (k + 1) c1 s' /\ c_out s' = out1) \/
   (advance rl s filtered c1 out1 = Ok AdvMax /\ max_ord < step_lo r (k + 1)).
 Proof.
-  intros k cnt s filtered c1 out1 (Am & Ay & Ai & Ar & At & Ac).
+  intros k cnt s filtered c1 out1 [(Am & Ay & Ai & Ar & At & Ac) Hr] Hok.
   destruct (normalize_misc r rl HN) as (Ni & _ & _ & _ & _ & _ & _).
   pose proof (wf_itv r HW) as Hitv.
   rewrite (advance_monthly_is_carry rl s filtered c1 out1 Nfr).
@@ -140,26 +156,30 @@ Proof.
   - assert (Hy' : 1 <= y' <= 9999).
     { unfold T_MAXYEAR in EMX. unfold monthly_carry in EMC.
       destruct (12 <? c_month s + interval rl) eqn:E12; [cbn [andb] in EMX; lia|inversion EMC; lia]. }
-    destruct (RB_ok y' m' Hy' Hm') as (ii2 & R2).
+    assert (Hr' : ylo <= y' <= yhi).
+    { unfold okp_m in Hok. rewrite <- Hidx' in Hok.
+      replace ((y' * 12 + (m' - 1)) / 12) with y' in Hok by lia. lia. }
+    destruct (RB_ok y' m' Hr' Hm') as (ii2 & R2).
     assert (R2' : rebuild rl (c_ii s) y' m' = Ok ii2).
-    { rewrite (RB_eq (c_year s) (c_month s) (c_ii s) y' m' Ay Am Ar Hy' Hm'); [exact R2|].
+    { rewrite (RB_eq (c_year s) (c_month s) (c_ii s) y' m' Hr Am Ar Hr' Hm'); [exact R2|].
       destruct (Z.eq_dec y' (c_year s)) as [E|E]; [|left; exact E]. right. intros E2. subst. rewrite Ni in *. lia. }
     rewrite R2'. cbn [bind]. unfold finish_advance. cbn [andb].
     left. eexists. split; [reflexivity|]. split; [|reflexivity].
-    unfold at_pass_m. cbn [c_year c_month c_ii c_timeset c_count].
+    unfold inv_m, at_pass_m. cbn [c_year c_month c_ii c_timeset c_count]. split; [|exact Hr'].
     split; [exact Hm'|]. split; [exact Hy'|]. split; [exact Hidx'|]. split; [exact R2|]. split; [exact At|reflexivity].
 Qed.
 
-Lemma monthly_step2 : forall k cnt s, at_pass_m r rl k cnt s -> 0 <= k -> True ->
+Lemma monthly_step2 : forall k cnt s, inv_m k cnt s -> 0 <= k -> okp_m k ->
   exists acc' cnt' b, sp_take r (step_items r k) cnt (c_out s) = (acc', cnt', b) /\
-    ((exists s', step rl s = inl s' /\ at_pass_m r rl (k + 1) cnt' s' /\ c_out s' = acc' /\ b = false) \/
+    ((exists s', step rl s = inl s' /\ inv_m (k + 1) cnt' s' /\ c_out s' = acc' /\ b = false) \/
      (exists t, step rl s = inr (acc', t) /\
                 (b = true \/ until_lt_start r \/ max_ord < step_lo r (k + 1)))) /\
     (sp_after_until r (step_lo r k, 0) = true -> acc' = c_out s).
 Proof.
-  intros k cnt s A Hk _.
+  intros k cnt s AA Hk Hok.
+  pose proof AA as [A Hr].
   pose proof A as (Am & Ay & Ai & Ar & At & Ac).
-  destruct (monthly_days k cnt s A) as (ds & ds' & f & E1 & E2 & E3).
+  destruct (monthly_days k cnt s A Hr) as (ds & ds' & f & E1 & E2 & E3).
   pose proof (rebuild_ii_for rl _ _ (c_ii s) Ay Ar) as F.
   pose proof (dbm_mono (c_year s) 1 (c_month s) ltac:(lia) ltac:(lia) ltac:(lia)) as M1.
   pose proof (dbm_mono (c_year s) (c_month s + 1) 13 ltac:(lia) ltac:(lia) ltac:(lia)) as M2.
@@ -183,7 +203,7 @@ Proof.
   - destruct s1 as [t|].
     + right. exists t. split; [exact PRE|]. destruct (G3 ltac:(discriminate)) as [H|H]; auto.
     + destruct (G2 eq_refl) as [Hb Ec]. subst c1'.
-      destruct (monthly_advance2 k cnt s f c1 out' A) as [(s' & EA & A' & EO)|(EA & Hmax)].
+      destruct (monthly_advance2 k cnt s f c1 out' AA Hok) as [(s' & EA & A' & EO)|(EA & Hmax)].
       * left. exists s'. rewrite PRE, EA. split; [reflexivity|]. split; [exact A'|]. split; [exact EO|exact Hb].
       * right. exists TMaxYear. rewrite PRE, EA. split; [reflexivity|]. right. right. exact Hmax.
   - intros AU. apply (G4 (step_lo r k)); [|exact AU].
@@ -203,26 +223,27 @@ Proof.
   apply month_start_mono; lia.
 Qed.
 
-Theorem monthly_run_is_spec2 : forall limit n k cnt s, at_pass_m r rl k cnt s -> 0 <= k ->
+Theorem monthly_run_is_spec2 : forall limit n k cnt s, inv_m k cnt s -> 0 <= k ->
+  (forall j, k <= j < k + Z.of_nat n -> okp_m j) ->
   fst (run rl limit n s) = fst (spec_loop r limit n k cnt (c_out s)).
 Proof.
-  intros limit n k cnt s A Hk.
-  apply (coarse_run_is_spec r rl (at_pass_m r rl) (fun _ => True)); try assumption.
-  - intros k0 cnt0 s0 (_ & _ & _ & _ & _ & Ac). exact Ac.
+  intros limit n k cnt s A Hk Hokn.
+  apply (coarse_run_is_spec r rl inv_m okp_m); try assumption.
+  - intros k0 cnt0 s0 [(_ & _ & _ & _ & _ & Ac) _]. exact Ac.
   - exact step_lo_monthly_mono.
-  - intros k0 cnt0 s0 (Am & Ay & Ai & _) _ _.
+  - intros k0 cnt0 s0 [(Am & Ay & Ai & _) _] _ _.
     rewrite (step_lo_monthly r k0 (c_year s0) (c_month s0) Hfr Am Ai).
     assert (V : valid_ymd (c_year s0) (c_month s0) 1 = true).
     { unfold valid_ymd. pose proof (dim_pos (c_year s0) (c_month s0)). lia. }
     pose proof (ord_of_ymd_range _ _ _ V). lia.
   - exact monthly_step2.
-  - intros j _. exact I.
 Qed.
 
-Theorem monthly_iter_correct2 : forall limit n,
+Theorem monthly_iter_correct2 : forall limit n, ylo <= r_y r <= yhi ->
+  (forall j, 0 <= j < Z.of_nat n -> okp_m j) ->
   fst (iterate rl limit n) = fst (spec_iter r limit n).
 Proof.
-  intros limit n.
+  intros limit n Hr0 Hokn.
   destruct (normalize_misc r rl HN) as (Ni & Nsp & Ny & Nm & Nd & Nc & Nu).
   assert (V : valid_ymd (r_y r) (r_m r) (r_d r) = true).
   { pose proof HW as HW'. unfold spec_wf in HW'.
@@ -230,17 +251,17 @@ Proof.
       let H := fresh "W" in apply andb_true_iff in HW'; destruct HW' as [HW' H] end. assumption. }
   destruct (index_in_year _ _ _ V) as (_ & _ & Hy0).
   assert (Hm0 : 1 <= r_m r <= 12) by (unfold valid_ymd in V; lia).
-  destruct (RB_ok (r_y r) (r_m r) Hy0 Hm0) as (ii0 & R0).
+  destruct (RB_ok (r_y r) (r_m r) Hr0 Hm0) as (ii0 & R0).
   pose proof (timeset_is_spec r rl HN HW ltac:(rewrite Hfr; reflexivity)) as HT.
   unfold iterate, init_state. rewrite Nfr. change (MONTHLY =? WEEKLY) with false. cbn [andb]. cbv iota.
   rewrite Ny, Nm, Nd, R0. cbn [bind].
   change (MONTHLY <? HOURLY) with true. cbv iota. rewrite HT. cbn [bind]. rewrite Nc.
   unfold spec_iter.
   set (s0 := mkSt _ _ _ _ _ _ _ _ _ _ _).
-  assert (A0 : at_pass_m r rl 0 (r_count r) s0).
-  { unfold at_pass_m, s0, midx. cbn [c_year c_month c_ii c_timeset c_count].
+  assert (A0 : inv_m 0 (r_count r) s0).
+  { unfold inv_m, at_pass_m, s0, midx. cbn [c_year c_month c_ii c_timeset c_count]. split; [|exact Hr0].
     split; [exact Hm0|]. split; [exact Hy0|]. split; [ring|]. split; [exact R0|]. split; reflexivity. }
-  pose proof (monthly_run_is_spec2 limit n 0 (r_count r) s0 A0 ltac:(lia)) as Q.
+  pose proof (monthly_run_is_spec2 limit n 0 (r_count r) s0 A0 ltac:(lia) ltac:(intros j Hj; apply Hokn; lia)) as Q.
   change (c_out s0) with (@nil instant) in Q.
   destruct (run rl limit n s0) as [out t]. destruct (spec_loop r limit n 0 (r_count r) []) as [acc t'].
   cbn [fst] in *. rewrite Q. reflexivity.
@@ -270,7 +291,7 @@ Proof.
     repeat match type of HW' with _ && _ = true =>
       let H := fresh "W" in apply andb_true_iff in HW'; destruct HW' as [HW' H] end.
     unfold between in *. lia. }
-  apply (monthly_iter_correct2 r rl HN HW Hfr).
+  apply (monthly_iter_correct2 r rl HN HW Hfr 1 9999); [| | |apply (start_year_range_m r HW)|intros j _; unfold okp_m; lia].
   - intros y m Hy Hm. apply (rebuild_succeeds rl y m Hy Hwk TN (or_introl TE)).
   - intros y m ii y' m' Hy Hm Ar Hy' Hm' Hne.
     destruct (Z.eq_dec y' y) as [->|Hney].
@@ -285,6 +306,61 @@ Proof.
     rewrite dbm_1 in M1. rewrite dbm_13 in M2.
     apply (day_filter_correct_guarded r rl y m ii i HN HW Hp Hs (or_introl He) Hy Ar). lia.
 Qed.
+
+(* ------------------------------------------------------------------ instance 1e: the same with BYEASTER *)
+Record mfam_e (r : raw) : Prop := mk_mfam_e {
+  me_wf : spec_wf r = true;
+  me_freq : r_freq r = MONTHLY;
+  me_plain : plain_only r = true;
+  me_weekno : all_opt (r_byweekno r) weekno_safe = true
+}.
+
+(* BYEASTER inside the year range of C19's Easter theorem: the start's year and the year of every pass 1..n *)
+Theorem monthly_easter_iter_correct : forall r rl limit n,
+  normalize r = Ok rl -> mfam_e r -> 1583 <= r_y r <= 4098 ->
+  (forall j, 0 <= j < Z.of_nat n -> midx r (j + 1) / 12 <= 4098) ->
+  fst (iterate rl limit n) = fst (spec_iter r limit n).
+Proof.
+  intros r rl limit n HN [HW Hfr Hp Hs] Hr0 Hn.
+  pose proof (normalize_wkst r rl HN) as Nwk.
+  pose proof (plain_only_no_nth r rl HN Hp) as TN.
+  assert (Hwk : 0 <= wkst rl <= 6).
+  { rewrite Nwk. pose proof HW as HW'. unfold spec_wf in HW'.
+    repeat match type of HW' with _ && _ = true =>
+      let H := fresh "W" in apply andb_true_iff in HW'; destruct HW' as [HW' H] end.
+    unfold between in *. lia. }
+  apply (monthly_iter_correct2 r rl HN HW Hfr 1583 4098).
+  - intros y m Hy Hm. apply (rebuild_succeeds rl y m ltac:(lia) Hwk TN (or_intror Hy)).
+  - intros y m ii y' m' Hy Hm Ar Hy' Hm' Hne.
+    destruct (Z.eq_dec y' y) as [->|Hney].
+    + apply (rebuild_same_year rl y m m' ii Ar ltac:(lia) TN).
+    + destruct (rebuild_slots rl y m ii ltac:(lia) Ar) as (LY & EM).
+      destruct (rebuild_char rl y m ii ltac:(lia) Ar) as (_ & CN & _).
+      apply rebuild_from_previous_year; [|exact TN|apply CN; exact TN|].
+      * rewrite LY. unfold opt_neqb. apply negb_true_iff. apply Z.eqb_neq. lia.
+      * destruct (truthy (byeaster rl)) eqn:TE; [left; reflexivity|right; apply EM; reflexivity].
+  - intros y m ii i Hy Hm Ar Hi.
+    pose proof (dbm_mono y 1 m ltac:(lia) ltac:(lia) ltac:(lia)) as M1.
+    pose proof (dbm_mono y (m + 1) 13 ltac:(lia) ltac:(lia) ltac:(lia)) as M2.
+    rewrite dbm_1 in M1. rewrite dbm_13 in M2.
+    apply (day_filter_correct_guarded r rl y m ii i HN HW Hp Hs (or_intror Hy) ltac:(lia) Ar). lia.
+  - exact Hr0.
+  - intros j Hj. unfold okp_m. left. apply Hn. exact Hj.
+Qed.
+
+(* non-vacuity: rrule(MONTHLY, dtstart=datetime(2024,2,1,9,0), byeaster=(-47, 0, 39), count=3): Shrove Tuesday,
+   Easter Sunday, Ascension Day of 2024, found month by month *)
+Definition raw_monthly_easter_example : raw :=
+  mkRaw MONTHLY false 2024 2 1 9 0 0 1 0 (Some 3) None false
+        None None None None (Some [-47; 0; 39]) None None None None None.
+Example monthly_easter_example :
+  mfam_e raw_monthly_easter_example /\
+  match normalize raw_monthly_easter_example with
+  | Ok rl => fst (iterate rl 100 40) =
+             [(ord_of_ymd 2024 2 13, 32400); (ord_of_ymd 2024 3 31, 32400); (ord_of_ymd 2024 5 9, 32400)]
+  | Err _ => False
+  end.
+Proof. split; [constructor; reflexivity|vm_compute; reflexivity]. Qed.
 
 (* non-vacuity: rrule(MONTHLY, dtstart=datetime(2023,11,30,9,0), byweekday=(MO,TU,WE,TH,FR),
    bysetpos=(1,-1), byhour=(9,17), count=6): first and last working-day instant of each month *)
